@@ -1,2 +1,3 @@
+import Driver.FileHandlers
 import Driver.Path
 import Driver.Slice
